@@ -52,6 +52,7 @@ type vEnv struct {
 	ignoreSignal bool // the plugin does not react to the cancel signal
 	slowClose   bool // stopping a deployed plugin takes (virtual) time
 	closeFaults bool // Close() of the ATP client / the plugin may fail
+	boolEnabledOnly bool // the enabling input is nil / true / false only (no textual spellings)
 
 	deployments int
 	plugins     []*vPlugin
@@ -238,10 +239,35 @@ type vHandler struct {
 	schemas       map[string]*schema.StepOutputSchema
 	checkShape    bool
 	lateNotify    bool
+
+	// a notification handler that is slow: the holdAt-th notification (counted from 0) does not
+	// return until the harness closes hold (the run loop's handlers take the run lock, which may be held)
+	holdAt  int
+	hold    chan struct{}
+	notes   int
+	held    bool
+	mainGid int
 }
 
 func newHandler() *vHandler {
-	return &vHandler{finished: map[string]bool{}, failed: map[string]bool{}, execAt: -1}
+	return &vHandler{finished: map[string]bool{}, failed: map[string]bool{}, execAt: -1, holdAt: -1, mainGid: verifrt.Gid()}
+}
+
+func (h *vHandler) verifAtomicGate() bool {
+	n := h.notes
+	h.notes++
+	if h.hold != nil && n == h.holdAt && verifrt.Gid() != h.mainGid {
+		h.held = true
+		return true
+	}
+	return false
+}
+
+// gate blocks the notifying goroutine inside the chosen notification until the harness releases it.
+func (h *vHandler) gate() {
+	if h.verifAtomicGate() {
+		<-h.hold
+	}
 }
 
 func (h *vHandler) verifAtomicNote(ev vEvent) {
@@ -283,6 +309,7 @@ func deref(p *string) (string, bool) {
 
 func (h *vHandler) OnStageChange(s step.RunningStep, prev *string, outID *string, out *any, stage string, inputAvailable bool, wg *sync.WaitGroup) {
 	verifrt.Yield("OnStageChange")
+	h.gate()
 	p, _ := deref(prev)
 	o, has := deref(outID)
 	var d any
@@ -294,6 +321,7 @@ func (h *vHandler) OnStageChange(s step.RunningStep, prev *string, outID *string
 
 func (h *vHandler) OnStepComplete(s step.RunningStep, prev string, outID *string, out *any, wg *sync.WaitGroup) {
 	verifrt.Yield("OnStepComplete")
+	h.gate()
 	o, has := deref(outID)
 	var d any
 	if out != nil {
@@ -304,6 +332,7 @@ func (h *vHandler) OnStepComplete(s step.RunningStep, prev string, outID *string
 
 func (h *vHandler) OnStepStageFailure(s step.RunningStep, stage string, wg *sync.WaitGroup, err error) {
 	verifrt.Yield("OnStepStageFailure")
+	h.gate()
 	h.verifAtomicNote(vEvent{kind: "fail", stage: stage})
 }
 
